@@ -116,7 +116,7 @@ PROPS = {
     "C01": {
         "modules": ["CambrianModel.Props.C01"],
         "theorems": ["Cambrian.Props.C01_init", "Cambrian.Props.C01_guess", "Cambrian.Props.C01_cross",
-                     "Cambrian.Props.C01_mut", "Cambrian.Props.C01_run", "Cambrian.Props.C01_report", "Cambrian.Props.C01_accepted_wf", "Cambrian.Props.C01_offspring_alg"],
+                     "Cambrian.Props.C01_mut", "Cambrian.Props.C01_run", "Cambrian.Props.C01_report", "Cambrian.Props.C01_accepted_wf", "Cambrian.Props.C01_offspring_alg", "Cambrian.Props.C01_run_alg"],
         "correspondences": ["ops", "algo", "codec", "spec"],
         "trusted": OPS_TRUST + CODEC_TRUST + CTL_TRUST,
         "assumptions": ["map keys are machine usize values (keysBounded)", "float law FL-cast for the guess reader",
